@@ -1,5 +1,7 @@
 SPECIFICATION Spec
 CONSTANTS
   Deviations = {}
-INVARIANTS DeclaredRoundTrip DefaultMapping ExactlyOneResponse
+  Seed = 1
+  Spaces = {"base", "place1", "pair"}
+INVARIANTS WellFormed DeclaredRoundTrip DefaultMapping ExactlyOneResponse EveryDeclaredReturned CallsInOrder PairQInPair PathsAsPlaced
 CHECK_DEADLOCK FALSE
